@@ -421,6 +421,11 @@ func (ms *Modules) Process() []error {
 	for _, m := range mods {
 		ToEntry(m).Augment(true)
 	}
+	// An augment that could only be applied now (its path names a case
+	// that the fix-up above inserted) may have brought choices of its own.
+	for _, m := range all {
+		ToEntry(m).FixChoice()
+	}
 	// Applying an augment can itself fail (the target may already have a
 	// child of that name); such errors are recorded on the target, which
 	// may be in any module.
